@@ -74,7 +74,7 @@ macro("ad_v1_prefix", ["t"], "exists(lambda w: 0 <= w < ad_n(t) and (str_startsw
 macro("ad_v1_comma", ["t"], "exists(lambda w: 0 <= w < ad_n(t) and str_in(',', ad_w(t, w)))")
 macro("ad_v2", ["t"], "exists(lambda w: 0 <= w < ad_n(t) and (ad_w(t, w) == 'and' or ad_w(t, w) == 'or' or ad_w(t, w) == 'not' "
                       "or ad_w(t, w) == '(' or ad_w(t, w) == ')' or has_magic(ad_w(t, w))))")
-contract(B + "_select_tag_expression_parser4auto", props=["C08"], params={"text_or_seq": "str"},
+contract(B + "_select_tag_expression_parser4auto", props=["C08", "C07"], params={"text_or_seq": "str"},
          raises=[Raises("TagExpressionError", when="ad_v1_prefix(text_or_seq) and ad_v2(text_or_seq)",
                         label="mixed-v1-negation-and-v2-operators-rejected")],
          ensures={
@@ -182,12 +182,24 @@ contract(V1 + "TagExpression.normalize_tag", props=["C08"], params={"tag": "str"
 
 # C07: text normalisation before the v2 parser: every '@' is removed, whatever precedes it
 oracle("v2_parsed", ["val"], "val")
-contract("abs:TagExpressionParser.parse", trusted=True, pos_params=["text"], pure=True, result="any",
-         ensures={"value": "result == v2_parsed(text)"}, doc="cucumber_tag_expressions based parser (A-lib; bounded: truth tables)")
-contract(B + "_parse_tag_expression_v2", props=["C07"], params={"text_or_seq": "str"}, result="any",
+_ghost0 = __import__("pyvc.contracts", fromlist=["ghost"]).ghost
+_ghost0("v2_text", "val")
+contract("abs:TagExpressionParser.parse", trusted=True, pos_params=["text"], result="any", modifies=["G_v2_text"],
+         ensures={"value": "result == v2_parsed(text) and G_v2_text == text"},
+         doc="cucumber_tag_expressions based parser (A-lib; bounded: truth tables); ghost: the text it was given")
+contract(B + "_parse_tag_expression_v2", props=["C07", "C08"], params={"text_or_seq": "any"}, result="any",
          callsites={"TagExpressionParser.parse": "abs:TagExpressionParser.parse"},
+         modifies=["G_v2_text"],
+         raises=[Raises("TypeError", when="not has_kind(text_or_seq, 'str') and not typeof_is(text_or_seq, 'list') "
+                                          "and not typeof_is(text_or_seq, 'tuple')", label="neither-text-nor-sequence")],
+         assume={"A-str: removing every '@' leaves none, and collapsing double blanks adds none":
+                 "forall_val(lambda s: not str_in('@', as_str(s).replace('@', ''))) and "
+                 "forall_val(lambda s: str_in('@', as_str(s).replace('  ', ' ')) == str_in('@', as_str(s)))"},
          ensures={"every-at-sign-is-removed-then-double-blanks-collapsed-then-parsed":
-                  "result == v2_parsed((text_or_seq.replace('@', '') if str_in('@', text_or_seq) else text_or_seq).replace('  ', ' '))"})
+                  "implies(has_kind(text_or_seq, 'str'), result == v2_parsed((as_str(text_or_seq).replace('@', '') "
+                  "if str_in('@', as_str(text_or_seq)) else as_str(text_or_seq)).replace('  ', ' ')))",
+                  "the-parser-never-sees-an-at-sign-in-text-or-list-of-terms-form":
+                      "result == v2_parsed(G_v2_text) and not str_in('@', G_v2_text)"})
 
 # C07: the configured dialect is in force before *any* expression of this configuration is parsed
 from pyvc.contracts import ghost as _ghost
